@@ -32,7 +32,7 @@ TRUSTED = [
 ] + C13.TRUSTED[:4]
 ASSUMPTIONS = [
     "metrics are deterministic functions of (object, kwargs) returning arrays of a fixed shape",
-    "alpha in (0,1); finite point estimates (a NaN component with bc/bca is the C13 known finding)",
+    "alpha in (0,1); finite point estimates",
     "the CI formula is compared on the actual replicate rows handed to utils.bootstrap_ci, with the C13 tolerances",
 ]
 
@@ -496,13 +496,13 @@ def oracle(case, res):
         if r["rows_dtype"].startswith("int") and case["bootstrap_method"] == "bca" and r["ci_err"] == "UFuncTypeError":
             fails.append(("C14/int-metric/bca-raises",
                           f"integer-valued metric with bootstrap_method='bca': bootstrap_ci raises {r['ci_err']} ({r['ci_msg']}) "
-                          "instead of returning the interval of the replicates"))
+                          "instead of returning the interval of the replicates (regression of fix 4a7af20)"))
         elif (case["bootstrap_method"] in ("bc", "bca") and r["ci_err"] == "ValueError" and "Quantiles" in r.get("ci_msg", "")
               and any(all(r["rows"][j * size + c] is None for j in range(n)) for c in range(size))):
             fails.append(("C14/all-nan-component/raises",
                           f"a metric component is NaN in every bootstrap sample (e.g. a group without positives in the sample) and "
                           f"bootstrap_ci with method {case['bootstrap_method']} raises {r['ci_err']} ({r['ci_msg']}) for the whole metric "
-                          "instead of NaN limits for that component (C13 known finding reached through Scores.bootstrap_ci)"))
+                          "instead of NaN limits for that component (regression of fix fa251ac)"))
         else:
             fails.append(("C14/exception", f"bootstrap_ci raised {r['ci_err']}: {r['ci_msg']}"))
         return fails
